@@ -189,7 +189,7 @@ def evaluate(plan, ctx):
     return Result(nt, ev)
 
 
-SUBCHECKS = [SubCheck("ridge", strategy, evaluate, quick=8000, thorough=150000)]
+SUBCHECKS = [SubCheck("ridge", strategy, evaluate, quick=12000, thorough=150000)]
 KNOWN = {}
 
 MANIFEST = {
